@@ -505,5 +505,5 @@ SUBCHECKS = [
              shards_quick=2, shards_thorough=8,
              fresh=(8, 64, 3), rule="ellipse and up sigma of R^T (var1 + var2 - cov12 - cov12^T) R with a non-symmetric cov12 block from a valid joint covariance"),
     SubCheck("t_table", check_table, enumerate=enumerate_table, shards_quick=1, shards_thorough=1, exhaustive="both",
-             rule="all integer dof -5..200: table = round(t_0.975(dof), 5) for 1..120, value for 1 below, 1.96 above; TypeError for non-int"),
+             rule="all integer dof -5..200: table = round(t_0.975(dof), 5) for 1..120, value for 1 below, 1.96 above"),
 ]
